@@ -26,6 +26,7 @@ type SupArgs struct {
 	Root    string // /verif
 	Exe     string // plain child binary
 	RaceExe string // -race child binary (may be empty if no race streams)
+	Exe386  string // GOARCH=386 child binary (may be empty if no 386 streams)
 	Streams string // optional comma list restricting streams (development)
 }
 
@@ -307,6 +308,9 @@ func (s *supervisor) spawn(st *Stream, shard, from, to, workers, only int, skip 
 	exe := s.a.Exe
 	if st.Race {
 		exe = s.a.RaceExe
+	}
+	if st.Arch386 {
+		exe = s.a.Exe386
 	}
 	tag := fmt.Sprintf("%s.%d", st.Name, shard)
 	if only >= 0 {
